@@ -17,7 +17,7 @@ import scipy.stats as st  # noqa: E402
 from frouros.detectors.data_drift.batch import (AndersonDarlingTest, BWSTest, ChiSquareTest, CVMTest,  # noqa: E402
                                                  KuiperTest, MannWhitneyUTest, WelchTTest)
 
-warnings.filterwarnings("ignore")
+# (warning filters are left at the defaults: see common.py)
 
 
 def res(det_cls, ref, test, **kw):
